@@ -104,6 +104,13 @@ func (processor *packetProcessor) Run(ctx context.Context) {
 		return
 	}
 }
+// inboundFlow is the in-flight table prefix of the exchanges started by the
+// client (its QoS 2 publishes). Client and broker choose packet identifiers
+// independently, so the two directions must not share keys.
+func inboundFlow(session *sessions.Session) string {
+	return session.ID() + "/in"
+}
+
 func (processor *packetProcessor) publishHandler(ctx context.Context, sender string, publish *packet.Publish, cb func(publish *packet.Publish)) error {
 	select {
 	case <-ctx.Done():
@@ -149,7 +156,7 @@ func (processor *packetProcessor) Process(ctx context.Context, session *sessions
 				Header:    &packet.Header{},
 				MessageId: p.MessageId,
 			}
-			err := processor.inflights.Insert(session.ID(), pubrec, time.Now().Add(3*time.Second), func(expired bool, stored, received packet.Packet) {
+			err := processor.inflights.Insert(inboundFlow(session), pubrec, time.Now().Add(3*time.Second), func(expired bool, stored, received packet.Packet) {
 				if expired {
 					L(ctx).Warn("qos2 flow timed out waiting for PUBREL")
 					return
@@ -228,7 +235,7 @@ func (processor *packetProcessor) Process(ctx context.Context, session *sessions
 			L(ctx).Error("failed to ack pubrec", zap.Int32("message_id", p.MessageId), zap.Error(err))
 		}
 	case *packet.PubRel:
-		err := processor.inflights.Ack(session.ID(), p)
+		err := processor.inflights.Ack(inboundFlow(session), p)
 		if err != nil {
 			L(ctx).Error("failed to ack pubrel", zap.Int32("message_id", p.MessageId), zap.Error(err))
 		}
